@@ -1959,8 +1959,10 @@ class TensorDict(TensorDictBase):
             raise ValueError(
                 "Received an permutation order incompatible with the tensordict shape."
             )
-        # note: to allow this to work recursively, we must allow permutation order with fewer elements than dims,
-        # as long as this list is complete.
+        if len(dims_list) != self.ndim:
+            raise ValueError(
+                f"number of dims don't match in permute (got {len(dims_list)}, expected {self.ndim})."
+            )
         if not np.array_equal(sorted(dims_list), range(len(dims_list))):
             raise ValueError(
                 f"Cannot compute the permutation, got dims={dims_list} but expected a permutation of {list(range(len(dims_list)))}."
